@@ -37,7 +37,8 @@ splice contract clauses into them at a small number of fixed insertion points:
 Normalisations applied to extracted text (each application is counted and reported):
   N1  `const X: &str`            -> `const X: &'static str`
   N2  fn-local `static`/`const`  -> hoisted to module level as `exec static/const .. ensures ..`
-  N4  `crate::a::b::` / `super::` path prefixes removed (one module per bundle)
+  N4  `crate::a::b::` / `super::` path prefixes removed (one module per bundle); kept with keep-paths=1 when the
+      bundle provides modules of those names (two types of one name in one signature)
   N5  generic iterator parameter instantiated at its single call-site type
   N6  `const X: T = <exec call>;` -> `exec const X: T ensures X == <lit> { <exec call> }`
   N7  `for x in E` -> `for x in name: E` (ghost iterator binder for loop invariants)
@@ -442,6 +443,9 @@ class Out:
 LOG_STMT = re.compile(r"log::(trace|debug|info|warn|error)!\s*\(")
 
 
+KEEP_PATHS = [False]
+
+
 def apply_text_norms(text, mask, out, where):
     """N4 and D1 on an extracted piece; returns new text + mask (same length relation not kept)"""
     # D1: log statements
@@ -488,7 +492,9 @@ def apply_text_norms(text, mask, out, where):
         text = text[:m.start()] + "|_x|" + text[m.end():]
         mask = mask[:m.start()] + "|_x|" + mask[m.end():]
         out.count("N10", where)
-    # N4: crate:: / super:: path prefixes
+    # N4: crate:: / super:: path prefixes (opt-out per function with keep-paths=1: the bundle then provides the modules)
+    if KEEP_PATHS[0]:
+        return text
     def n4(m):
         out.count("N4", "%s: %s" % (where, m.group(0)))
         return ""
@@ -744,6 +750,14 @@ def find_closures(mask, lo, hi):
 
 
 def assemble_fn(spec, bundle, out, canary=False):
+    KEEP_PATHS[0] = bool(spec.opts.get("keep-paths"))
+    try:
+        return assemble_fn_(spec, bundle, out, canary)
+    finally:
+        KEEP_PATHS[0] = False
+
+
+def assemble_fn_(spec, bundle, out, canary=False):
     sf = get_file(spec.file)
     it = sf.find_fn(spec.path)
     if it.body_open is None:
